@@ -1659,6 +1659,15 @@ namespace jsoncons {
             {
                 return 0;
             }
+            if (storage_kind() == json_storage_kind::half_float)
+            {
+                // compare a half-precision value through its double value
+                return basic_json(binary::decode_half(cast<half_storage>().value()), tag()).compare(rhs);
+            }
+            if (rhs.storage_kind() == json_storage_kind::half_float)
+            {
+                return compare(basic_json(binary::decode_half(rhs.cast<half_storage>().value()), rhs.tag()));
+            }
             switch (storage_kind())
             {
                 case json_storage_kind::const_json_ref:
@@ -1735,6 +1744,10 @@ namespace jsoncons {
                         case json_storage_kind::json_ref:
                             return compare(rhs.cast<json_ref_storage>().value());
                         default:
+                            if (is_string_storage(rhs.storage_kind()) && is_number_tag(rhs.tag()))
+                            {
+                                return -rhs.compare(*this);
+                            }
                             return static_cast<int>(storage_kind()) - static_cast<int>(rhs.storage_kind());
                     }
                     break;
@@ -1763,6 +1776,10 @@ namespace jsoncons {
                         case json_storage_kind::json_ref:
                             return compare(rhs.cast<json_ref_storage>().value());
                         default:
+                            if (is_string_storage(rhs.storage_kind()) && is_number_tag(rhs.tag()))
+                            {
+                                return -rhs.compare(*this);
+                            }
                             return static_cast<int>(storage_kind()) - static_cast<int>(rhs.storage_kind());
                     }
                     break;
@@ -1781,8 +1798,10 @@ namespace jsoncons {
                         }
                         case json_storage_kind::float64:
                         {
-                            auto r = cast<double_storage>().value() - rhs.cast<double_storage>().value();
-                            return r == 0 ? 0 : (r < 0.0 ? -1 : 1);
+                            // not by subtraction: inf - inf is NaN
+                            const double a = cast<double_storage>().value();
+                            const double b = rhs.cast<double_storage>().value();
+                            return a == b ? 0 : (a < b ? -1 : 1);
                         }
                         case json_storage_kind::const_json_ref:
                             return compare(rhs.cast<const_json_ref_storage>().value());
@@ -1846,6 +1865,10 @@ namespace jsoncons {
                                     }
                                     auto r = val1 - val2; 
                                     return r == 0 ? 0 : (r < 0.0 ? -1 : 1);
+                                }
+                                else if (is_string_storage(rhs.storage_kind()))
+                                {
+                                    return as_string_view().compare(rhs.as_string_view());
                                 }
                                 else
                                 {
